@@ -1,11 +1,12 @@
 (** C18 -- STIL patterns map scan data onto flip-flops by chain order and inversion.  Statements only.
     They are about Model/Stil.v, the transcription of StilFile.__init__/_maps/tests/responses/tests_loc
-    (repaired code: [maps_gen true]); the grammar in front of it is tied by differential tests only.
+    (repaired code: [maps_gen true]); the grammar in front of it (lark's reading of stil.GRAMMAR and the
+    StilTransformer callbacks) is transcribed in Model/StilText.v: TEXT level theorems at the end of this file.
     A chain is the list [si :: pre ++ cell :: post ++ [so]]: [pre] are the items (cells and "!" markers)
     between scan-in and the cell, [post] those between the cell and scan-out.  [ncell post] is therefore the
     number of the character (0 = first shifted) that belongs to the cell, counted from scan-out. *)
 From Coq Require Import List Arith Bool String Ascii.
-From KV Require Import Model.Prims Model.Logic Model.Netlist Model.Stil Model.StilSpec Proofs.StilProofs.
+From KV Require Import Model.Prims Model.Logic Model.Netlist Model.Stil Model.StilSpec Proofs.StilProofs Model.StilText Proofs.StilTextProofs.
 Import ListNotations.
 Local Open Scope list_scope.
 
@@ -154,3 +155,144 @@ Theorem C18_interface_v0_refuted :
   exists groups chains c, wf_scan chains c /\ maps_gen true groups chains c <> None /\ maps_gen false groups chains c = None /\
     interface_v0 c <> map (fun i => nth i (sc_nodes c) dsnode) (s_nodes (netlist_of c)).
 Proof. exact interface_v0_refuted. Qed.
+
+(* ---------------------------------------------------------------------------------------------- *)
+(** TEXT level (Model/StilText.v): [parse_ast] is the transcription of what lark (contextual lexer + LALR parser) does with
+    stil.GRAMMAR, [transform] of the StilTransformer callbacks and the raises of StilFile.__init__; [parse_stil text] = the arguments
+    stil.parse(text) hands to StilFile(...) ([None]: it raises).  A [cfile] is a concrete syntax tree: every token with the ignored
+    text in front of it (blanks, tabs, form feeds, "\n", "\r\n", "//..\n" comments), every ignored block ({ } with balanced
+    inner braces, raw text, comments that swallow braces after "{" / "}") and every ignored statement; [pr_file] writes it down,
+    [file_ok] are the side conditions (comment bodies without newline, names without double quote, values that are /[^;]+/ tokens
+    not starting with ignored text, digits, FLOAT characters, balanced braces), [file_ast] the tree the callbacks see. *)
+
+(** every well-formed way of writing a file is accepted, with exactly the statements it was written from *)
+Theorem C18_text_parse_cst : forall f, file_ok f = true -> parse_ast (pr_file f) = Some (file_ast f).
+Proof. exact parse_ast_print. Qed.
+Theorem C18_text_parse_stil_cst : forall f, file_ok f = true ->
+  parse_stil (pr_file f) = match transform (file_ast f) with SOk x => Some x | _ => None end.
+Proof. exact parse_stil_cst. Qed.
+
+(** ... and nothing else is: the accepted language is EXACTLY the set of well-formed concrete syntax trees (declarative
+    characterisation of what the transcribed lexer + parser accept; [parse_stil] adds the transformer on the tree) *)
+Theorem C18_text_language : forall s a, parse_ast s = Some a <-> exists f, file_ok f = true /\ file_ast f = a /\ s = pr_file f.
+Proof. exact parse_ast_iff. Qed.
+Theorem C18_text_language_stil : forall s sf, parse_stil s = Some sf <->
+  exists f, file_ok f = true /\ s = pr_file f /\ transform (file_ast f) = SOk sf.
+Proof. exact parse_stil_iff. Qed.
+(** the ignored-block scanner accepts exactly the balanced blocks *)
+Theorem C18_text_ignored_block_iff : forall s r, p_ignore s = Some r <->
+  exists t b, tr_ok t = true /\ iblock_ok b = true /\ s = sep_k t (pr_iblock b r).
+Proof. exact p_ignore_iff. Qed.
+
+(** an ignored block is skipped as a whole, whatever follows it: the brace-skipping rule is sound for every balanced block *)
+Theorem C18_text_ignored_block_skipped : forall t b k, tr_ok t = true -> iblock_ok b = true ->
+  p_ignore (sep_k t (pr_iblock b k)) = Some k.
+Proof. intros t b k Ht Hb. rewrite p_ignore_sep by exact Ht. now apply p_ignore_iblock. Qed.
+
+(** (b) the result does not depend on the ignored text between the tokens (nor on the content of ignored blocks): two well-formed
+    writings of the same statements are read alike *)
+Theorem C18_text_layout_irrelevant : forall f f', file_ok f = true -> file_ok f' = true -> file_ast f = file_ast f' ->
+  parse_ast (pr_file f) = parse_ast (pr_file f') /\ parse_stil (pr_file f) = parse_stil (pr_file f').
+Proof. exact layout_irrelevant. Qed.
+
+(** (b) in particular ALL ignored text between the tokens (and a final comment) can be deleted: [file_compact] writes the same tokens
+    with nothing in between *)
+Theorem C18_text_compact_same : forall f, file_ok f = true ->
+  parse_ast (pr_file (file_compact f)) = parse_ast (pr_file f) /\ parse_stil (pr_file (file_compact f)) = parse_stil (pr_file f).
+Proof. exact compact_same. Qed.
+
+(** (c) Header, Signals, Timing, PatternBurst, PatternExec, Procedures, MacroDefs, UserKeywords blocks, labels, W, C, Macro, Ann
+    statements, ScanLength / ScanInversion / ScanMasterClock statements do not affect the result: it is a function of the core of
+    the tree ([ast_core] removes them all) *)
+Theorem C18_text_transform_core : forall a, transform (ast_core a) = transform a.
+Proof. exact transform_core. Qed.
+Theorem C18_text_ignored_irrelevant : forall f f', file_ok f = true -> file_ok f' = true ->
+  ast_core (file_ast f) = ast_core (file_ast f') ->
+  stil_outcome (pr_file f) = stil_outcome (pr_file f') /\ parse_stil (pr_file f) = parse_stil (pr_file f').
+Proof. exact ignored_irrelevant. Qed.
+
+(** (a) round trip: StilFile arguments whose names have no double quote, whose cell names have no '.', whose group member lists are
+    not empty, whose chain lists have both ports, whose parameter values are value tokens and whose dictionaries have no repeated
+    key are printed to a text that is read back as themselves *)
+Theorem C18_text_parse_print : forall f, wf_file f = true -> parse_stil (print_stil f) = Some f.
+Proof. exact parse_print. Qed.
+
+(** (d) what the statements of ANY accepted text mean: a ScanChain statement (name used once in the last ScanStructures block)
+    becomes the chain list [ScanIn; cells with `.SI` and the hierarchy prefix removed, `!` markers; ScanOut]; a signal group is
+    the last definition of its name in the last SignalGroups block; the calls are the Call statements of the last Pattern block *)
+Theorem C18_text_chain_as_written : forall text ver blocks sf cs key items si so cells,
+  parse_ast text = Some (ver, blocks) -> parse_stil text = Some sf ->
+  last_of sel_chains blocks = Some cs -> NoDup (map fst cs) -> In (key, items) cs ->
+  chain_si_of items = Some si -> chain_so_of items = Some so -> chain_cells_of items = Some cells ->
+  In (key, si :: map clean_cell cells ++ [so]) (sf_chains sf).
+Proof. exact chain_as_written. Qed.
+Theorem C18_text_group_as_written : forall text ver blocks sf gs name,
+  parse_ast text = Some (ver, blocks) -> parse_stil text = Some sf ->
+  last_of sel_groups blocks = Some gs ->
+  dget (groups_of sf) name = last_of (fun g => if String.eqb (fst g) name then Some (snd g) else None) gs.
+Proof. exact group_as_written. Qed.
+Theorem C18_text_calls_as_written : forall text ver blocks sf items,
+  parse_ast text = Some (ver, blocks) -> parse_stil text = Some sf ->
+  last_of sel_pattern blocks = Some items -> sf_calls sf = flat_map call_of items.
+Proof. exact calls_as_written. Qed.
+
+(** (d) the position theorems starting from the TEXT: [cells] are the cell names as written in the ScanCells statement *)
+Theorem C18_text_scan_load_position : forall text ver blocks sf cs key items si so cells pre cell post c m p col L ch,
+  parse_ast text = Some (ver, blocks) -> parse_stil text = Some sf ->
+  last_of sel_chains blocks = Some cs -> NoDup (map fst cs) -> In (key, items) cs ->
+  chain_si_of items = Some si -> chain_so_of items = Some so -> chain_cells_of items = Some cells ->
+  map clean_cell cells = pre ++ cell :: post ->
+  wf_scan (sf_chains sf) c ->
+  maps_gen true (groups_of sf) (sf_chains sf) c = Some m ->
+  is_marker cell = false ->
+  (forall gpi, dget (groups_of sf) "_pi"%string = Some gpi -> ~ In cell gpi) ->
+  dget (p_load p) si = Some L ->
+  String.length L = ncell (pre ++ cell :: post) ->
+  String.get (ncell post) L = Some ch ->
+  tests_col m (si_ports (sf_chains sf)) p = Some col ->
+  exists q, dget (intf_pos (interface c)) cell = Some q /\ q < List.length col /\
+            nth q col UNASSIGNED = load_value (interpret ch) (Nat.odd (nmark pre)).
+Proof. exact text_scan_load_position. Qed.
+Theorem C18_text_scan_unload_position : forall text ver blocks sf cs key items si so cells pre cell post c m p col U ch,
+  parse_ast text = Some (ver, blocks) -> parse_stil text = Some sf ->
+  last_of sel_chains blocks = Some cs -> NoDup (map fst cs) -> In (key, items) cs ->
+  chain_si_of items = Some si -> chain_so_of items = Some so -> chain_cells_of items = Some cells ->
+  map clean_cell cells = pre ++ cell :: post ->
+  wf_scan (sf_chains sf) c ->
+  maps_gen true (groups_of sf) (sf_chains sf) c = Some m ->
+  is_marker cell = false ->
+  dget (p_unload p) so = Some U ->
+  String.length U = ncell (pre ++ cell :: post) ->
+  String.get (ncell post) U = Some ch ->
+  responses_col m (so_ports (sf_chains sf)) p = Some col ->
+  exists q, dget (intf_pos (interface c)) cell = Some q /\ q < List.length col /\
+            nth q col UNASSIGNED = unload_value (interpret ch) (Nat.odd (nmark post)).
+Proof. exact text_scan_unload_position. Qed.
+Theorem C18_text_pi_group_position : forall text ver blocks sf gs c m p col gpi s j name ch,
+  parse_ast text = Some (ver, blocks) -> parse_stil text = Some sf ->
+  last_of sel_groups blocks = Some gs ->
+  last_of (fun g => if String.eqb (fst g) "_pi" then Some (snd g) else None) gs = Some gpi ->
+  NoDup (map sn_name (interface c)) ->
+  maps_gen true (groups_of sf) (sf_chains sf) c = Some m ->
+  NoDup gpi ->
+  dget (p_capture p) "_pi"%string = Some s -> String.length s = List.length gpi ->
+  nth_error gpi j = Some name -> String.get j s = Some ch ->
+  tests_col m (si_ports (sf_chains sf)) p = Some col ->
+  exists q, dget (intf_pos (interface c)) name = Some q /\ q < List.length col /\
+            nth q col UNASSIGNED = interpret ch.
+Proof. exact text_pi_group_position. Qed.
+Theorem C18_text_po_group_position : forall text ver blocks sf gs c m p col gpo s j name ch,
+  parse_ast text = Some (ver, blocks) -> parse_stil text = Some sf ->
+  last_of sel_groups blocks = Some gs ->
+  last_of (fun g => if String.eqb (fst g) "_po" then Some (snd g) else None) gs = Some gpo ->
+  wf_scan (sf_chains sf) c ->
+  maps_gen true (groups_of sf) (sf_chains sf) c = Some m ->
+  NoDup gpo ->
+  ~ In name (all_cells (map snd (sf_chains sf))) ->
+  p_capture p <> [] ->
+  dget (p_capture p) "_po"%string = Some s -> String.length s = List.length gpo ->
+  nth_error gpo j = Some name -> String.get j s = Some ch ->
+  responses_col m (so_ports (sf_chains sf)) p = Some col ->
+  exists q, dget (intf_pos (interface c)) name = Some q /\ q < List.length col /\
+            nth q col UNASSIGNED = interpret ch.
+Proof. exact text_po_group_position. Qed.
